@@ -128,6 +128,12 @@ def run(fx, rep):
     fw = Forwarder(rep, 'P1', r'^(R3/visit_expr/|R4/|R7/visit_(expr|conditionalOr|conditionalAnd)/|R9/|R3/labels/)', 'C04')
     c04.run(fx, fw)
     rep.check(fw.n >= 12, 'P1', 'parser-rules-evaluated', 'antlr/src/parser.rs', '%d parser-side instances' % fw.n, 'only %d parser-side instances evaluated (anchor lost)' % fw.n)
+    # an "undeclared" error may only arise where a name is actually looked up (Ident arm, call dispatch): a pre-scan of a
+    # sub-expression would report names of operands that are never evaluated (C19 R2 enumerates the sources)
+    from . import c19
+    fw2 = Forwarder(rep, 'P1', r'^R2/(source|no-other)', 'C19')
+    c19.run(fx, fw2)
+    rep.check(fw2.n >= 3, 'P1', 'undeclared-error-sources-evaluated', 'interpreter/src/objects.rs', '%d instances' % fw2.n, 'only %d instances of C19 R2 evaluated (anchor lost)' % fw2.n)
     rep.floor('S1', 4)
     rep.floor('S2', 4)
     rep.floor('S3', 4)
